@@ -42,7 +42,7 @@ theorem P.frameSym_after (p1 : P) (hT : TInv p1) (hd : SDecAll p1) (t : Nat) (a 
     (cs : (Str × Nat) × Str) (hcs : subNames p1.cats c s = some cs) (p2 : P) (t' i : Nat)
     (h : p1.frameSym t a name nsym file line col depth c s flags = (p2, .h [t', i])) :
     t' = t ∧ ∃ th pr la nm fs th2 k d, p1.threads[t]? = some th ∧ p1.processes[th.process]? = some pr ∧
-      resolveLib pr.maps a = some la ∧ p1.optGstr name = some nm ∧ p1.optGstr file = some fs ∧
+      resolveLib (effMaps p1.kmaps pr.maps a) a = some la ∧ p1.optGstr name = some nm ∧ p1.optGstr file = some fs ∧
       p2.threads[t]? = some th2 ∧ th2.frames.keys[i]? = some k ∧ p2.descOf th2 k = some d ∧
       d.cat = cs.1 ∧ d.sub = cs.2 ∧ d.file = fs ∧ d.line = line ∧ d.col = col ∧ d.flags = flags ∧
       (match la with
@@ -63,16 +63,17 @@ theorem P.frameSym_after (p1 : P) (hT : TInv p1) (hd : SDecAll p1) (t : Nat) (a 
       | some pr =>
         simp only [hpr] at h
         obtain ⟨a1, _, a3, _⟩ := hT.threads th (List.mem_of_getElem? hth)
-        have hmaps : ∀ m ∈ pr.maps, m.lib < p1.libs.all.length := hT.maps pr (List.mem_of_getElem? hpr)
+        have hmaps : ∀ m ∈ effMaps p1.kmaps pr.maps a, m.lib < p1.libs.all.length :=
+          effMaps_libs hT.kmaps (hT.maps pr (List.mem_of_getElem? hpr)) a
         have hsd := hd th (List.mem_of_getElem? hth)
         have hnidx : nsym.2 < th.nsyms.names.length := by
           simp only [P.nsymOk, hown', hth, decide_eq_true_eq] at hnv
           exact hnv
         obtain ⟨q, nmi, hq, hqn, hqs⟩ := nsymOfCols_some p1.libs hT.libs th a3 nsym.2 hnidx
-        cases hr : resolveAddr p1.libs pr.maps a with
+        cases hr : resolveAddr p1.libs (effMaps p1.kmaps pr.maps a) a with
         | mk libs res =>
-          obtain ⟨hun, hin⟩ := resolveAddr_lib p1.libs hT.libs pr.maps hmaps a libs res hr
-          have hra := resolveAddr_ext p1.libs pr.maps a
+          obtain ⟨hun, hin⟩ := resolveAddr_lib p1.libs hT.libs (effMaps p1.kmaps pr.maps a) hmaps a libs res hr
+          have hra := resolveAddr_ext p1.libs (effMaps p1.kmaps pr.maps a) a
           rw [hr] at h hra
           simp only at hra
           cases res with
@@ -202,13 +203,14 @@ theorem sym_step (p : P) (hI : Inv p) (hd : SDecAll p) (t : Nat) (a : AddrSpec) 
   have hth := p.resolveSub_threads sc
   have hlibs : (p.resolveSub sc).1.libs = p.libs := by rw [e]
   have hprocs : (p.resolveSub sc).1.processes = p.processes := by rw [e]
+  have hkm : (p.resolveSub sc).1.kmaps = p.kmaps := by rw [e]
   simp only [step] at hout ⊢
   unfold P.withSub at hout ⊢
   unfold P.SymFrameSpec
   cases hr : p.resolveSub sc with
   | mk p1 r =>
-    rw [hr] at hok hinv hg hth hout hp1 hlibs hprocs
-    simp only at hok hinv hg hth hout hp1 hlibs hprocs ⊢
+    rw [hr] at hok hinv hg hth hout hp1 hlibs hprocs hkm
+    simp only at hok hinv hg hth hout hp1 hlibs hprocs hkm ⊢
     cases r with
     | invalid => exact absurd rfl hinv
     | panic => simp at hout
@@ -241,7 +243,7 @@ theorem sym_step (p : P) (hI : Inv p) (hd : SDecAll p) (t : Nat) (a : AddrSpec) 
           obtain ⟨_, th, pr, la, nm, fs, th2, k, d, e1, e2, e3, e4, e5, e6, e7, e8, f1, f2, f3, f4, f5, f6, f7⟩ :=
             p1.frameSym_after hp1 hd1 t a name nsym file line col depth c s flags hns1 hfile1 cs hcs p2 t i hk
           refine ⟨d, th2, k, ⟨p1, c, s, cs, th, pr, la, nm, fs, rfl, hcs, by rw [← hth]; exact e1,
-            by rw [← hprocs]; exact e2, e3, by rw [← hgs]; exact e4, by rw [← hgs]; exact e5, f1, f2, f3, f4, f5, f6, ?_⟩,
+            by rw [← hprocs]; exact e2, by rw [← hkm]; exact e3, by rw [← hgs]; exact e4, by rw [← hgs]; exact e5, f1, f2, f3, f4, f5, f6, ?_⟩,
             e6, e7, e8⟩
           cases la with
           | unknown addr => exact f7
